@@ -141,14 +141,17 @@ func VerifC09Frag() {
 
 var errFault = errors.New("injected fault")
 
-// faultWriter accepts `limit` bytes in total, then fails (short count + error).
+// faultWriter accepts `limit` bytes in total, then fails (short count + error): for good, or (recovers) only
+// in the one call that crosses the limit, accepting everything again afterwards.
 type faultWriter struct {
-	limit int
-	n     int
+	limit    int
+	n        int
+	recovers bool
+	failed   bool
 }
 
 func (w *faultWriter) Write(p []byte) (int, error) {
-	if w.n+len(p) <= w.limit {
+	if w.n+len(p) <= w.limit || (w.recovers && w.failed) {
 		w.n += len(p)
 		return len(p), nil
 	}
@@ -157,6 +160,7 @@ func (w *faultWriter) Write(p []byte) (int, error) {
 		k = 0
 	}
 	w.n += k
+	w.failed = true
 	return k, errFault
 }
 
@@ -173,7 +177,7 @@ func VerifC10Write() {
 	total := ref.Len()
 	f := zz.Int("fail-after")
 	zz.Assume(f >= 0 && f <= total+1)
-	w := &faultWriter{limit: f}
+	w := &faultWriter{limit: f, recovers: zz.Choice("destination-recovers-after-the-failed-call", 2) == 1}
 	n, err := s.WriteTo(w)
 	if f < total {
 		zz.Assert(err != nil, "write:failure-reported")
